@@ -54,6 +54,9 @@ def case_strategy(draw):
         case["fs_rejects"] = {"writes": sorted(set(draw(st.lists(st.integers(0, nseg + 4), min_size=1, max_size=3))))}
     if draw(st.integers(0, 3)) == 0:
         case["pacing"] = draw(S.pacing_scripts(max_len=20))
+    if draw(st.integers(0, 3)) == 0:
+        # destination shapes: a directory, an existing (longer) file, a directory already holding a longer file of that name
+        case["dest_kind"] = draw(st.sampled_from(["dir", "existing", "dir_existing"]))
     return case
 
 
@@ -68,7 +71,9 @@ def evaluate(case):
     def hook(side, name, data, raw):
         if name != "finished":
             return
-        if data["cond"] == 0 and data["delivery"] == 0 and data["status"] == 2:
+        # receiver: (no error, data complete, file retained); sender: (no error, data complete) - the file status it
+        # reports is whatever the Finished PDU said, or 'unreported' when it made the report up itself
+        if data["cond"] == 0 and data["delivery"] == 0 and (data["status"] == 2 or side == "src"):
             state["reports"].append((side + "-indication", read_dest()))
 
     s = sim.Sim(case, hook=hook)
@@ -116,8 +121,12 @@ def evaluate(case):
             )
             break
         applied = len(s.link.applied) + (getattr(s.dst_vfs, "rejected", 0) if case.get("fs_rejects") else 0)
-        nt = applied >= 1 and checked >= 1
-        classes = [f"mode:{mode}", f"csum:{cfg['crc_type']}", f"outcome:{s.outcome}"]
+        nt = (applied >= 1 or case.get("dest_kind") in ("existing", "dir_existing")) and checked >= 1
+        if case.get("dest_kind"):
+            classes_extra = [f"dest:{case['dest_kind']}"]
+        else:
+            classes_extra = []
+        classes = [f"mode:{mode}", f"csum:{cfg['crc_type']}", f"outcome:{s.outcome}"] + classes_extra
         classes.append("success-reported" if checked else "no-success-report")
         if applied:
             classes.append("faults-applied")
